@@ -10,6 +10,15 @@ CLAIMED = {
  "C05": ("decision-table extraction from SSA paths (transition, step, fireTransition, emit) compared cell-by-cell with the E37 table; who-may-write enumeration of supervisor.state; dominance ordering in Close",
          "Structural necessary conditions of the E37 state behaviour decided for every path/writer in the source: the full transition and step decision tables, the complete writer set of the state word, the notification chain's single-sender/ordering shape and Close's fence→requestClose→wait→stop ordering. Does not decide interleavings or timing.",
          "§4 C05"),
+ "C07": ("path enumeration of every send entry point with gate-decision/effect linearisation; who-may-call/send/receive chokepoint enumeration; dispatchFrame decision table (data arm); dominance of the synchronous Selected commit",
+         "Decides for every path of sendWaitReply/sendNoReply/SendAsync/writeFrame that each write/enqueue follows a 'not data' or 'Selected' decision and a live-epoch decision, that the refusing branch returns the not-selected error after exactly one counted drop and no effect, that bytes can reach a socket only through those chokepoints, and the inbound not-selected reject table and commit-before-response ordering. Histories leading to not-selected and State() accuracy are not decided here.",
+         "§4 C07"),
+ "C08": ("decision-table extraction (dispatchFrame classifier, responders, sendReject, runSelectProcedure, checkSessionID) compared with an E37 oracle on every cell; byte-map (layout) extraction of the control-message factories; accept-loop value-flow",
+         "Decides the complete frame-class × state response table of the HSMS-SS receiver and responders, the reject reason/byte-2 selection and the byte layout of every control message the library builds, for all cells of the finite partition the code's comparisons induce. Frame sequences are covered only as (class × logical state); wire ordering of queued responses is not decided.",
+         "§4 C08"),
+ "C19": ("decision tables of the two pure linktest reducers and of one full iteration of the probe loop (loop-carried values included) against an oracle written from the suppression rules; option-validation tables",
+         "Decides every ordering cell of the failure reducer and the pre-disconnect re-check, and the complete per-iteration behaviour of the probe loop: skip rules, probe, success reset, failure accounting with argument roles and fresh re-reads, threshold comparison, TCPDown, and what is carried to the next iteration. Real-time durations and accepted stamp races are not decided.",
+         "§4 C19"),
 }
 
 NOT_YET = {}
